@@ -22,6 +22,7 @@ func (g *Gen) seedGenesis(gs *GenesisSpec) {
 	// AOL: owners with addresses of lengths 1..255 that are byte-prefixes of one another
 	base := r.Bytes(255)
 	lens := []int{1, 2, 3, 19, 20, 21, 32, 64, 255}
+	special := [][]byte{make([]byte, 20), bytesOf(0xff, 20), bytesOf(0x00, 32), bytesOf(0xff, 32), append(bytesOf(0x00, 19), 1), append([]byte{0xff}, make([]byte, 31)...)}
 	a := &AolGenesisSpec{}
 	nOwners := r.Range(2, 5)
 	for i := 0; i < nOwners; i++ {
@@ -44,9 +45,11 @@ func (g *Gen) seedGenesis(gs *GenesisSpec) {
 			seenW := map[string]bool{}
 			for k := 0; k < nW; k++ {
 				var wb []byte
-				switch r.Intn(3) {
+				switch r.Intn(4) {
 				case 0:
 					wb = g.env.Accs[r.Intn(NumAccounts)].Addr
+				case 1:
+					wb = special[r.Intn(len(special))] // zero bytes, 0xff bytes, exactly 32 bytes
 				default:
 					wb = base[:lens[r.Intn(len(lens))]]
 				}
@@ -73,6 +76,21 @@ func (g *Gen) seedGenesis(gs *GenesisSpec) {
 		n := r.Range(250, 258)
 		for k := 0; k < n; k++ {
 			t.Records = append(t.Records, AolGenRecord{KeyHex: fmt.Sprintf("%04x", k), ValueHex: fmt.Sprintf("%06x", k*7), Ts: ts - 5000 + int64(k), Writer: sdk.AccAddress(wb).String()})
+		}
+		a.Topics = append(a.Topics, t)
+	}
+	if r.Chance(0.15) {
+		// an owner with 254-257 topics and a topic with 254-257 writers: counters and listings cross the 255/256 boundary
+		ob := g.env.Accs[3].Addr
+		nt := r.Range(254, 257)
+		for k := 0; k < nt; k++ {
+			a.Topics = append(a.Topics, AolGenTopic{OwnerHex: hex.EncodeToString(ob), Name: fmt.Sprintf("many-%03d", k)})
+		}
+		t := AolGenTopic{OwnerHex: hex.EncodeToString(g.env.Accs[4].Addr), Name: "crowded"}
+		nw := r.Range(254, 257)
+		for k := 0; k < nw; k++ {
+			wb := Keyed(11, "crowd", uint64(k)).Bytes(20)
+			t.Writers = append(t.Writers, AolGenWriter{AddrHex: hex.EncodeToString(wb), Moniker: "c", Ts: ts})
 		}
 		a.Topics = append(a.Topics, t)
 	}
@@ -105,7 +123,11 @@ func (g *Gen) seedGenesis(gs *GenesisSpec) {
 			if r.Chance(0.4) {
 				keys = append(keys, (k+1)%NumDidKeys)
 			}
-			gs.Did = append(gs.Did, DidGenesisEntry{Did: did, Seq: uint64(r.Range(0, 5)), Doc: g.didDoc(did, keys, 0)})
+			seq := uint64(r.Range(0, 5))
+			if r.Chance(0.35) { // sequences about to cross an encoding boundary
+				seq = []uint64{254, 255, 65534, 65535, 1<<32 - 2, 1<<32 - 1, 1<<63 - 2, 1<<63 - 1}[r.Intn(8)]
+			}
+			gs.Did = append(gs.Did, DidGenesisEntry{Did: did, Seq: seq, Doc: g.didDoc(did, keys, 0)})
 		}
 	}
 	// PNFT: denoms with tokens held by their creators
@@ -395,4 +417,12 @@ func (g *Gen) famHostileQuery() {
 		q.Height = -int64(r.Range(1, 4))
 	}
 	g.steps = append(g.steps, Step{K: "hquery", HQ: &q})
+}
+
+func bytesOf(b byte, n int) []byte {
+	out := make([]byte, n)
+	for i := range out {
+		out[i] = b
+	}
+	return out
 }
